@@ -14,6 +14,7 @@ import (
 	"syscall"
 	"time"
 
+	"github.com/piotrnar/gocoin/client/common"
 	"github.com/piotrnar/gocoin/client/txpool"
 	"github.com/piotrnar/gocoin/lib/btc"
 )
@@ -120,7 +121,7 @@ func (h *harness) selfTest(phase string) *selfTestReport {
 	raw := func(cmd string, b []byte) wireMsg { return wireMsg{Cmd: cmd, Pl: b, Tag: "benign"} }
 
 	// --- connection A: handshake, queries about known objects, a new header, a new block, a new tx
-	tx1 := h.spendTx(3000, true)
+	tx1 := h.spendTx(3000, map[string]int{"pre": 1, "post": 2}[phase])
 	newBlk := h.newTipBlock(nil)
 	hdrOnly := h.newTipBlock(nil)
 	var unknownTx [32]byte
@@ -134,7 +135,8 @@ func (h *harness) selfTest(phase string) *selfTestReport {
 		raw("feefilter", le64(1000)),
 		raw("ping", []byte{1, 2, 3, 4, 5, 6, 7, 8}),
 		raw("getaddr", nil),
-		msg("addr", g.addr(2)),
+		raw("addr", append(append([]byte{2}, append(le32(nowU32()-600), append(le64(0x409), []byte{0, 0, 0, 0, 0, 0, 0, 0, 0, 0, 0xff, 0xff, 52, 1, 2, 3, 0x20, 0x8d}...)...)...),
+			append(le32(nowU32()-7200), append(le64(0x409), []byte{0, 0, 0, 0, 0, 0, 0, 0, 0, 0, 0xff, 0xff, 52, 1, 2, 4, 0x20, 0x8d}...)...)...)),
 		msg("inv", g.invList([]invEnt{{invBlock, h.blocks[50].Hash}, {invTx, unknownTx}})),
 		msg("getheaders", g.locator([][32]byte{h.blocks[99].Hash}, &zero)),
 		msg("getblocks", g.locator([][32]byte{h.blocks[119].Hash}, &zero)),
@@ -222,19 +224,18 @@ func childMain(args []string) {
 		f.Write(append(b, '\n'))
 	}
 
-	h := newHarness(logPath, synced)
+	// the benign conversation expects a synchronised node (tx relay, compact blocks); a batch against a
+	// node in initial-block-download mode flips the flag after the self-test and back before the last one
+	h := newHarness(logPath, true)
 	code := exitOK
 	func() {
-		if synced { // the benign conversation expects a synchronised node (tx relay, compact blocks, ping)
-			rep := h.selfTest("pre")
-			writeLine(rf, rep)
-			if !rep.OK {
-				code = exitSelfTest
-				return
-			}
-		} else {
-			writeLine(rf, &selfTestReport{SelfTest: "pre", OK: true, Problems: []string{"skipped: node in initial-sync mode"}})
+		rep := h.selfTest("pre")
+		writeLine(rf, rep)
+		if !rep.OK {
+			code = exitSelfTest
+			return
 		}
+		common.BlockChainSynchronized.Store(synced)
 		for idx := from; idx < to; idx++ {
 			s := makeScript(h, seed, idx)
 			writeLine(jf, journalOf(s))
@@ -249,12 +250,11 @@ func childMain(args []string) {
 				return
 			}
 		}
-		if synced {
-			rep := h.selfTest("post")
-			writeLine(rf, rep)
-			if !rep.OK {
-				code = exitPostTest
-			}
+		common.BlockChainSynchronized.Store(true)
+		rep = h.selfTest("post")
+		writeLine(rf, rep)
+		if !rep.OK {
+			code = exitPostTest
 		}
 	}()
 	jf.Close()
